@@ -57,7 +57,9 @@ SPEC = {
     "props_module": PROPS_MODULE,
     "required": ["grid_rectangular", "connectors_in_grid_on_partner_partial", "undrawable_is_error", "emitter_templates_as_modelled",
                  "each_op_once_partial", "wire_order", "column_order", "connector_span_clear_partial",
-                 "printed_iff_drawn", "stage_is_expected_partial", "stages_are_expected_partial", "latex_never_panics_partial",
+                 "printed_iff_drawn", "stage_is_expected_partial", "stages_are_expected_partial", "latex_never_panics_partial", "loop_brace_partial",
+                 "resetall_is_expected", "barrier_is_expected_partial", "barrier_side_condition_small", "barrier_one_column_partial",
+                 "block_placements_small", "block_multigate_extent",
                  "neg_ctrl_between_targets_panics", "neg_conditional_composite_overwrites", "neg_barrier_column_reused"],
     "drivers": ["drv_c13"],
     "harness_bin": "c13",
@@ -87,10 +89,11 @@ def run(ctx):
         "reading of the property for identity gates (Spec.QcGrid.idleLinks / linesOkIdle): q1tsim draws `I` as the bare wire `\\qw`, so a control / "
         "condition line of the same stage (C<I>, CC..I, conditional I) may end on that wire; a line ending on any other bare wire is a connector failure. "
         "The theorem connectors_in_grid_on_partner_partial uses the strict reading and excludes I under a control",
-        "each_op_once / wire_order / connector_span_clear are proved on the model's matrix with ghost provenance (Cell.prov), for circuits over opOk operations; "
-        "the reference drawing circStages is tied to the independent reader's opItems by stages_are_expected_partial (all opOk operations incl. Kron/Composite/Loop, "
-        "except reset_all and barrier whose stages the reader groups differently) and stage_is_expected_partial; that the reader's executable left-to-right matching "
-        "accepts the printed text, the loop braces of the header line, reset_all/barrier grouping and multi-qubit block gates are evaluated by (B) on every generated case",
+        "each_op_once / wire_order / connector_span_clear / latex_never_panics / loop_brace are proved on the model's matrix with ghost provenance (Cell.prov), for circuits over "
+        "opOk (and opSafe) operations; opOk now contains multi-qubit block gates at placements satisfying the decidable blockOk (kernel-checked for ALL placements on up to "
+        "5 qubits; not proved for all registers: needs the theory of the insertion sort in get_ranges), not under a control/condition; the same holds for barrierOk; "
+        "the reference drawing circStages is tied to the independent reader's opItems by stages_are_expected_partial / resetall_is_expected / barrier_is_expected_partial; "
+        "that the reader's executable left-to-right matching accepts the printed TEXT (incl. the header line read back by readBrace) is evaluated by (B) on every generated case",
         "(B) class tags: connector/span failures are attributed to the operation that drew the cell by the model's provenance (the model is tied to the code by (A)); "
         "a matching failure at operation k is attributed to the first operation of a known defective shape (multistage-in-range, kron-in-range, empty-loop-body) "
         "at or before k, because the left-to-right matching is unreliable after such an operation; a panic is attributed to the operation at which the model panics. "
